@@ -11,7 +11,7 @@ PROPS = {
     "C04": {
         "test": "TestC04", "level": "exploration",
         "budget": {"quick": 25, "thorough": 600},
-        "rule": "rapid-generated scenarios (setup code, controller id, key pairs via seed, accessory count, pre-seeded or on-the-wire pairing, other stored controllers, request list with sizes from one to several frames, schedule vector deciding goroutine release order and TCP segmentation); non-trivial = the reference controller completed the whole flow; distinct = distinct (scenario shape, event-log hash)",
+        "rule": "rapid-generated scenarios (setup code, controller id, key pairs via seed, accessory count, pre-seeded or on-the-wire pairing, other stored controllers, request list with sizes from one to several frames, schedule vector deciding goroutine release order and TCP segmentation); non-trivial = the reference controller completed the whole flow; distinct = distinct (scenario shape, event-log hash); in a quarter of the scenarios that pair on the wire the store already holds the controller's identifier with another long-term key (the controller pairs again after its own reset): the new key must be the stored one and pair-verify with it must succeed",
         "real": REAL_SYSTEM, "stub": STUB_SYSTEM,
         "assumptions": ["x/crypto, std crypto, math/big, encoding/json and net/http are trusted and shared by both sides",
                         "SRP integers inside M1 and K use the minimal big-endian encoding (libsrp convention); the padding ambiguity for values with a leading zero byte is not judged",
@@ -113,7 +113,7 @@ ADV_ASSUME = ["x/crypto, std crypto, math/big, encoding/json and net/http are tr
 
 PROPS["C01"] = {
     "test": "TestC01", "level": "exploration", "budget": {"quick": 30, "thorough": 600},
-    "rule": "the real transport with 1..3 accessories carrying planted canaries, a legitimate controller L (paired on the wire or pre-seeded) that verifies, writes with ev:true, reads and lists on its own connection, an application goroutine setting values, and 1..3 peer connections (peer has neither setup code nor paired key) running 1..10 messages from: plaintext GET/PUT/POST to /accessories, /characteristics (read, write, ev), /pairings (add, remove, list), /resource, /identify; pair-setup start / verify with wrong proof, A=0 / key exchange sealed under the zero key, HKDF(nil), a random key, shorter than a tag; pair-verify start (valid, wrong length) and finish (wrong key, unknown name, the accessory's own name, stale material, L's captured finish replayed, wrong seal, short, bad TLV); ciphertext GET under keys the peer derives itself (own ECDH secret, zero, random) and L's captured frames replayed; a plaintext request afterwards; the scheduler interleaves all connections and decides segmentation. Oracles: no protected request is served (in plaintext or under a peer-derivable key), no canary / attribute-database key / EVENT reaches a peer connection, no callback or snapshot or subscription or stored pairing is caused by a peer, a cryptographer exists only on L's connection (invariant at every quiescent point), and L keeps working. non-trivial = at least one peer message was answered; distinct = distinct (peer knowledge, per-message kind and status) sequences",
+    "rule": "the real transport with 1..3 accessories carrying planted canaries, a legitimate controller L (paired on the wire or pre-seeded) that verifies, writes with ev:true, reads and lists on its own connection, an application goroutine setting values, and 1..3 peer connections (peer has neither setup code nor paired key) running 1..10 messages from: plaintext GET/PUT/POST to /accessories, /characteristics (read, write, ev), /pairings (add, remove, list), /resource, /identify, a quarter of them with another legal spelling of the request target (absolute-form, percent-encoded unreserved characters); pair-setup start / verify with wrong proof, A=0 / key exchange sealed under the zero key, HKDF(nil), a random key, shorter than a tag; pair-verify start (valid, wrong length) and finish (wrong key, unknown name, the accessory's own name, stale material, L's captured finish replayed, wrong seal, short, bad TLV); ciphertext GET under keys the peer derives itself (own ECDH secret, zero, random) and L's captured frames replayed; a plaintext request afterwards; the scheduler interleaves all connections and decides segmentation. Oracles: no protected request is served (in plaintext or under a peer-derivable key), no canary / attribute-database key / EVENT reaches a peer connection, no callback or snapshot or subscription or stored pairing is caused by a peer, a cryptographer exists only on L's connection (invariant at every quiescent point), and L keeps working. non-trivial = at least one peer message was answered; distinct = distinct (peer knowledge, per-message kind and status) sequences",
     "real": REAL_SYSTEM, "stub": STUB_SYSTEM, "assumptions": ADV_ASSUME,
     "level_text": "Seeded exploration of request histories of an unprivileged peer interleaved with a legitimate controller, with black-box oracles on every byte the peer receives and white-box invariants (session map, pairing store, subscriptions, callbacks) at every quiescent point.",
     "level_note": "Sampling over a fixed message alphabet; primitives trusted.",
@@ -134,7 +134,7 @@ PROPS["C03"] = {
 }
 PROPS["C13"] = {
     "test": "TestC13", "level": "exploration", "budget": {"quick": 30, "thorough": 600},
-    "rule": "1..2 peer connections, half of the scenarios starting each connection with an honest pair-verify (hostile input after verification), run 1..10 messages from: arbitrary bodies (random bytes, truncated / over-long / duplicated TLV items, encrypted data shorter than a tag, arbitrary JSON incl. wrong types, huge numbers, deep nesting, repeated composite values, odd pairing methods) to /pair-setup, /pair-verify, /pairings, /characteristics (PUT and GET ids), /resource, /accessories, /identify, and protocol messages at every step of pair-setup and pair-verify (wrong proof, A=0, A missing, short / tampered / random key exchange, unknown state / method, short / wrong-seal / bad-TLV / unknown-name finish); oracles: every complete request is answered with a well-formed HTTP response, nothing like 'http: panic serving' appears on the captured server log, and afterwards an honest pair-verify succeeds on the same connection after at most one rejected start and an honest pair-setup + pair-verify + GET succeeds on a new connection (bounded liveness: the run must reach quiescence with every peer finished)",
+    "rule": "1..2 peer connections, half of the scenarios starting each connection with an honest pair-verify (hostile input after verification), run 1..10 messages from: arbitrary bodies (random bytes, truncated / over-long / duplicated TLV items, encrypted data shorter than a tag, arbitrary JSON incl. wrong types, huge numbers, deep nesting, repeated composite values, odd pairing methods) to /pair-setup, /pair-verify, /pairings, /characteristics (PUT and GET ids), /resource, /accessories, /identify, and protocol messages at every step of pair-setup and pair-verify (wrong proof, A=0, A missing, short / tampered / random key exchange, a correctly sealed and signed key exchange with an identifier of 100..255 bytes, unknown state / method, short / wrong-seal / bad-TLV / unknown-name finish); oracles: every complete request is answered with a well-formed HTTP response, nothing like 'http: panic serving' appears on the captured server log, and afterwards an honest pair-verify succeeds on the same connection after at most one rejected start and an honest pair-setup + pair-verify + GET succeeds on a new connection (bounded liveness: the run must reach quiescence with every peer finished)",
     "real": REAL_SYSTEM, "stub": STUB_SYSTEM, "assumptions": ADV_ASSUME,
     "level_text": "Seeded exploration of hostile inputs at every reachable protocol state with a liveness epilogue; panics are observed on the captured net/http error log, wedges as a peer that never gets its answer.",
     "level_note": "Sampling; the body generator is a fixed family of malformed shapes plus random bytes.",
@@ -187,7 +187,7 @@ PROPS["C12"] = {
 PROPS["C20"] = {
     "test": "TestC20", "level": "exploration", "budget": {"quick": 25, "thorough": 600},
     "env": {"thorough": {"VERIF_C20_ALL_CODES": "1"}},
-    "rule": "histories of 1..9 operations on one storage directory from {restart with the same structure and other values, restart with a structurally different accessory set (6 variants: single switch, bridge, extra characteristic, other permission list and extra service), pair-setup on the wire, add pairing and remove pairing through /pairings by a verified controller, value changes through the application API, probe by a paired controller}; after every start and after every pair / unpair event: the id TXT record and the long-term public key equal the first run's, every model pairing is stored and nothing else, c# equals the previous c# plus one exactly when an independent value-stripping canonicaliser of the encoded attribute database gives another hash than for the previous run, sf in the stub responder's latest TXT record is 1 exactly when the model holds no controller pairing, and the setup URI decodes back to code, category, IP flag and setup id. Pure sub-claims by plain enumeration in the same command (not simulation): ValidatePin over a stride sample of the code space in quick and all 10^8 codes in thorough plus 15 malformed strings; XHMURI decode over 256 categories x 16 flag sets x 7 codes. non-trivial = at least one restart or stored pairing",
+    "rule": "histories of 1..9 operations on one storage directory from {restart with the same structure and other values, restart with a structurally different accessory set (6 variants: single switch, bridge, extra characteristic, other permission list and extra service), pair-setup on the wire, a pair-setup by somebody who knows the setup code whose key-exchange message is damaged (flipped bit in the sealed data, or signed with another key: must be refused, nothing stored, sf unchanged), add pairing and remove pairing through /pairings by a verified controller, value changes through the application API, probe by a paired controller}; after every start and after every pair / unpair event: the id TXT record and the long-term public key equal the first run's, every model pairing is stored and nothing else, c# equals the previous c# plus one exactly when an independent value-stripping canonicaliser of the encoded attribute database gives another hash than for the previous run, sf in the stub responder's latest TXT record is 1 exactly when the model holds no controller pairing, and the setup URI decodes back to code, category, IP flag and setup id. Pure sub-claims by plain enumeration in the same command (not simulation): ValidatePin over a stride sample of the code space in quick and all 10^8 codes in thorough plus 15 malformed strings; XHMURI decode over 256 categories x 16 flag sets x 7 codes. non-trivial = at least one restart or stored pairing",
     "real": REAL_SYSTEM, "stub": STUB_SYSTEM + ["restart = close every connection, stop the transport, drop every object, build a new transport on the same directory"],
     "assumptions": ["the structure is compared on hc's own JSON encoding of the container (an independent canonicaliser strips values and compares)", "restart is a clean stop; crash points of the configuration write are C19's"],
     "level_text": "Seeded exploration of restart / pair / unpair histories against a model of identity, pairings, configuration number and discoverability, observed through the stub mDNS responder and the pairing store; the code space and the setup URI are enumerated.",
